@@ -99,11 +99,13 @@ def visible (P : ISet) : Cons → ISet
   | .serial a b => visible (visible P a) b
   | .refine a b => visible (visible P a) b
 
-/-- X.696 8.2.4: an extensible constraint is not OER-visible; of a serial application the
-    non-extensible prefix remains. -/
+/-- X.696 8.2.4: an extensible constraint is not OER-visible.  In a serial application only the
+    last constraint can be extensible (a parent loses its marker when a further constraint is
+    applied, X.680 50.x), so everything before it is visible in full and the last one is dropped
+    when it carries the marker. -/
 def oerVisible (P : ISet) : Cons → ISet
-  | .serial a b => if extensible b then oerVisible P a else visible (oerVisible P a) b
-  | .refine a b => oerVisible (oerVisible P a) b      -- a type reference: what the parent type left, then the own constraints
+  | .serial a b => if extensible b then visible P a else visible (visible P a) b
+  | .refine a b => oerVisible (visible P a) b      -- a type reference: the parent's root, then the own constraints
   | c => if extensible c then P else visible P c
 
 /-- `lb` is the lower bound of the effective constraint: the least element, or `none` when the
